@@ -221,6 +221,18 @@ func (e *Engine) vpCall(st *State, name string, args []Value, site ssa.Instructi
 			{Cond: c, Tag: "known:" + id, Do: func(s *State) { s.known = append(s.known, id); ret(s, tTrue) }},
 			{Cond: Not(c), Do: func(s *State) { ret(s, tFalse) }},
 		})
+	case "BoundReceiver":
+		iv, ok := args[0].(IfaceVal)
+		if !ok || iv.T == nil {
+			ret(st, nilPtr)
+			return true
+		}
+		fv, ok := iv.V.(FuncVal)
+		if !ok || len(fv.Bind) == 0 {
+			ret(st, nilPtr)
+			return true
+		}
+		ret(st, fv.Bind[0])
 	case "Observe":
 		ret(st, nil)
 	default:
